@@ -1508,13 +1508,15 @@ fn explain_diff(want: &Tables, got: &Tables) -> Diff {
         }
         if *ta == GVAR {
             let ok = match (gvar_read(da), gvar_read(db)) {
-                (Some(a), Some(b)) => a.axis == b.axis && a.tuples == b.tuples && a.glyphs.len() == b.glyphs.len() && a.long != b.long
+                // a pad byte can only stem from a state with short offsets: final flags differ, or both are
+                // long and one route went through a short intermediate table (pad bytes written then are kept)
+                (Some(a), Some(b)) => a.axis == b.axis && a.tuples == b.tuples && a.glyphs.len() == b.glyphs.len() && (a.long || b.long)
                     && a.glyphs.iter().zip(&b.glyphs).all(|(x, y)| x == y
                         || (x.len() == y.len() + 1 && x.len() % 2 == 0 && x[..y.len()] == y[..] && x[y.len()] == 0)
                         || (y.len() == x.len() + 1 && y.len() % 2 == 0 && y[..x.len()] == x[..] && y[x.len()] == 0)),
                 _ => false,
             };
-            if ok { width_only.push(format!("{t}: short/long offsets differ, glyph data identical up to the pad byte")); continue; }
+            if ok { width_only.push(format!("{t}: short/long offsets differ (now or in the intermediate table), glyph data identical up to the pad byte")); continue; }
             return Diff::Real(format!("table {t} differs ({} vs {} bytes)", da.len(), db.len()));
         }
         return Diff::Real(format!("table {t} differs ({} vs {} bytes)", da.len(), db.len()));
@@ -1762,6 +1764,31 @@ fn run_boundary(s: &mut Session, rng: &mut Rng) {
             s.oracle("boundary:gvar-A-then-B-equals-A+B", both.as_ref().map(|x| all_tables_equal(x, &t).is_none()).unwrap_or(false), input, || "differs".into());
         }
     }
+    // fixed demonstration of the pad-byte variant of C18-offset-width-history-dependent: A writes odd-length
+    // data while the table still has short offsets (padded to even), B then forces long offsets; in one call
+    // the table is long from the start and nothing is padded.  Both final tables carry the long flag.
+    {
+        let glyphs = vec![rng.bytes(4), rng.bytes(2), rng.bytes(6)];
+        let gv = GvarSpec { long: false, axis: 1, tuples: rng.bytes(2), glyphs: vec![rng.bytes(2), rng.bytes(2), rng.bytes(2)], swapped: false };
+        let f = font_from_glyphs(rng, glyphs, false, Some(&gv), ift.clone(), None);
+        let font = build_font(&f.tables);
+        let infos = infos_of(&font);
+        if infos.len() >= 2 {
+            let a = mk_patch(GkSpec { wide: false, tables: vec![GVAR], gids: vec![0], data: vec![vec![vec![7, 7, 7]]] }, &c1);
+            let b = mk_patch(GkSpec { wide: false, tables: vec![GVAR], gids: vec![1], data: vec![vec![rng.bytes(0x20000)]] }, &c1);
+            let pa = (&infos[0], &a);
+            let pb = (&infos[1], &b);
+            let input = || "boundary#gvar-pad-history: short gvar, A = gid0 := 070707, B = gid1 := 0x20000 bytes".to_string();
+            if let Ok(want) = apply_seq(s, &font, &[&[pa, pb][..]], &input) {
+                let r = apply_seq(s, &font, &[&[pa][..], &[pb][..]], &input);
+                same_tables_oracle(s, "boundary:gvar-A-then-B-equals-A+B", r, &want, &input, "A then B");
+                let r = apply_seq(s, &font, &[&[pb][..], &[pa][..]], &input);
+                same_tables_oracle(s, "boundary:gvar-B-then-A-equals-A+B", r, &want, &input, "B then A");
+            } else {
+                s.oracle("boundary:gvar-A+B-in-one-call-applies", false, input, || "failed".into());
+            }
+        }
+    }
     for (case_no, total) in [0x1FFFCusize, 0x1FFFE, 0x20000, 0x20002].into_iter().enumerate() {
         for odd in [false, true] {
             for table in [GLYF, GVAR] {
@@ -1954,6 +1981,9 @@ fn run_cff_groups(s: &mut Session, rng: &mut Rng, n_cases: usize) {
         if let Some(c) = &cff { tables.insert(CFF_, cff_bytes(c)); }
         if let Some(c) = &cff2 { tables.insert(CFF2, cff_bytes(c)); }
         tables.insert(IFT_, ift);
+        // half of the fonts also carry gvar, so that one patch can name CFF / CFF2 AND gvar
+        let gv = if rng.chance(1, 2) { Some(gen_gvar(rng, n, false)) } else { None };
+        if let Some(g) = &gv { tables.insert(GVAR, gvar_bytes(g)); }
         if rng.chance(1, 2) { let l = rng.below(12) as usize; tables.insert(tg(b"tab1"), rng.bytes(l)); }
         let font = build_font(&tables);
         let Some(base) = tables_of(&font) else { continue };
@@ -1974,6 +2004,8 @@ fn run_cff_groups(s: &mut Session, rng: &mut Rng, n_cases: usize) {
                 (_, _, 0) => vec![CFF2, tg(b"zzzz")],
                 _ => vec![CFF2],
             };
+            let mut tabs = tabs;
+            if gv.is_some() && rng.chance(1, 2) { tabs.push(GVAR); tabs.sort(); }
             let spec = gen_group_patch(rng, n, tabs, &mut pools, agree, &lens);
             patches.push(mk_patch(spec, &c1));
         }
@@ -1997,8 +2029,15 @@ fn run_cff_groups(s: &mut Session, rng: &mut Rng, n_cases: usize) {
                 s.oracle("gk:untouched-table-identical", Some(o) == get(&base, tag), input0, || hex(&tag.to_be_bytes()));
             }
         }
+        if let (Some(g), Some(o)) = (&gv, get(&want, GVAR)) {
+            if pairs.iter().any(|(_, p)| p.spec.tables.contains(&GVAR)) {
+                s.count("cffgroup:gvar-patched-too");
+                gvar_oracles(s, g, o, &pairs, &input0);
+            }
+        }
         for (tag, d) in &base {
             if [IFT_, CFF_, CFF2].contains(tag) { continue; }
+            if *tag == GVAR && pairs.iter().any(|(_, p)| p.spec.tables.contains(&GVAR)) { continue; }
             let same = get(&want, *tag).map(|o| canon_head(*tag, o) == canon_head(*tag, d)).unwrap_or(false);
             s.oracle("gk:untouched-table-identical", same, input0, || format!("table {}", hex(&tag.to_be_bytes())));
         }
